@@ -1,4 +1,5 @@
-(* Executable model of the Spanner prober helpers AS THEY ARE in /repo:
+(* Executable model of the Spanner prober helpers AS THEY ARE in /repo
+   (with the fixes 30d7568, 3d18018, 76e44a5 of findings B3, B2, B1):
      spanner_prober/prober/proberlib.go   backoff, URI builders, probeInterval,
                                           ParseProbeType, generatePayload
      spanner_prober/prober/interceptors.go parseT4T7Latency
@@ -20,18 +21,19 @@ Fixpoint bytes_eqb (a b : bytes) : bool :=
   end.
 
 (* ------------------------------------------------------------------------ *)
-(** * backoff (proberlib.go:441)
+(** * backoff (proberlib.go, after fix 76e44a5)
 
     func backoff(baseDelay, maxDelay time.Duration, retries int) time.Duration {
         backoff, max := float64(baseDelay), float64(maxDelay)
-        for backoff < max && retries > 0 { backoff = backoff * 1.5; retries-- }
-        if backoff > max { backoff = max }
-        return time.Duration(backoff)
+        for backoff > 0 && backoff < max && retries > 0 { backoff = backoff * 1.5; retries-- }
+        if backoff >= max { return maxDelay }
+        if d := time.Duration(backoff); d > baseDelay { return d }
+        return baseDelay
     }                                                                          *)
 
 (* one evaluation of the loop condition (with retries > 0 known) and body *)
 Definition bo_step (mx b : f64) : option f64 :=
-  if f64_lt b mx then Some (f64_mul b f64_1_5) else None.
+  if f64_gt b f64_zero && f64_lt b mx then Some (f64_mul b f64_1_5) else None.
 
 (* at most n trips through the loop (n = retries when retries > 0) *)
 Fixpoint bo_iter (mx : f64) (n : nat) (b : f64) : f64 :=
@@ -57,7 +59,10 @@ Fixpoint bo_iter_pos (mx : f64) (p : positive) (b : f64) : f64 * bool :=
       end
   end.
 
-Definition bo_clamp (mx b : f64) : f64 := if f64_gt b mx then mx else b.
+(* the three return statements; base, mx are the int64 arguments, m = float64(mx) *)
+Definition bo_final (base mx : Z) (m b : f64) : Z :=
+  if f64_ge b m then mx
+  else let d := f64_to_int64 b in if d >? base then d else base.
 
 (* base, mx: int64 nanoseconds; retries: Go int (a non-positive count means the
    loop body never runs) *)
@@ -65,13 +70,13 @@ Definition backoff (base mx retries : Z) : Z :=
   let b0 := f64_of_int base in
   let m := f64_of_int mx in
   let b := match retries with Zpos p => fst (bo_iter_pos m p b0) | _ => b0 end in
-  f64_to_int64 (bo_clamp m b).
+  bo_final base mx m b.
 
 (* reference formulation by recursion on a unary count; Backoff.v proves
    backoff = backoff_nat *)
 Definition backoff_nat (base mx retries : Z) : Z :=
   let m := f64_of_int mx in
-  f64_to_int64 (bo_clamp m (bo_iter m (Z.to_nat retries) (f64_of_int base))).
+  bo_final base mx m (bo_iter m (Z.to_nat retries) (f64_of_int base)).
 
 (* constants of proberlib.go *)
 Definition base_lro_retry_delay : Z := 200 * 1000000.
@@ -124,7 +129,7 @@ Definition parse_int10 (s : bytes) : pres :=
   end.
 
 (* ------------------------------------------------------------------------ *)
-(** * parseT4T7Latency (interceptors.go:53) *)
+(** * parseT4T7Latency (interceptors.go, after fix 3d18018) *)
 
 (* metadata.MD = map[string][]string; a map has one entry per key, the harness
    prints each map as an association list *)
@@ -158,9 +163,12 @@ Inductive lres :=
 | LOk (d : Z)            (* (d, nil) *)
 | LNotFound              (* "server-timing headers not found" *)
 | LNoEntry               (* "no gfe latency response available" *)
-| LParse (e : perr).     (* "failed to parse gfe latency: ..." *)
+| LParse (e : perr)      (* "failed to parse gfe latency: <strconv error>" *)
+| LDurRange.             (* "failed to parse gfe latency: <n>ms is out of range" (fix 3d18018) *)
 
 Definition millisecond : Z := 1000000.
+(* const maxDurationMillis = int64(math.MaxInt64 / time.Millisecond) *)
+Definition max_duration_millis : Z := max_int64 / millisecond.
 
 Fixpoint scan_entries (es : list bytes) : lres :=
   match es with
@@ -171,7 +179,9 @@ Fixpoint scan_entries (es : list bytes) : lres :=
       | Some t =>
           match parse_int10 t with
           | PErr x => LParse x
-          | POk ms => LOk (wrap64 (ms * millisecond))
+          | POk ms =>
+              if (max_duration_millis <? ms) || (ms <? - max_duration_millis) then LDurRange
+              else LOk (wrap64 (ms * millisecond))
           end
       end
   end.
@@ -216,7 +226,7 @@ Definition probe_name (p : probe) : bytes :=
   end.
 
 (* ------------------------------------------------------------------------ *)
-(** * validateFlags (main.go:174) *)
+(** * validateFlags (main.go, after fix 30d7568) *)
 
 Definition is_alnum (c : N) : bool :=
   (N.leb 97 c && N.leb c 122) || (N.leb 65 c && N.leb c 90) || (N.leb 48 c && N.leb c 57).
@@ -262,7 +272,8 @@ Definition ferr_bit (e : ferr) : Z :=
 Definition err_if (b : bool) (e : ferr) : list ferr := if b then [e] else [].
 
 Definition validate_flags (f : flags) : list ferr :=
-  err_if (f64_le (fl_qps f) f64_zero || f64_gt (fl_qps f) f64_1000) FEqps
+  (* if !( *qps >= minQPS && *qps <= 1000) *)
+  err_if (negb (f64_ge (fl_qps f) f64_min_qps && f64_le (fl_qps f) f64_1000)) FEqps
   ++ err_if (fl_num_rows f <=? 0) FEnumRows
   ++ err_if (fl_payload_size f <=? 0) FEpayloadSize
   ++ err_if (negb (re_project (fl_project f))) FEproject
